@@ -183,6 +183,9 @@ func Load(dir string, lc LoadConfig) (*Program, error) {
 		nfiles += len(pkg.Syntax)
 	}
 	p.Stats["files"] = nfiles
+	if p.Lang != nil {
+		computeTypeAliases(p.Lang.Types)
+	}
 	computeFuncAliases(p)
 	return p, nil
 }
@@ -476,7 +479,7 @@ func namedOf(T types.Type) *types.Named {
 // isLangNamed: T (possibly behind pointers) is lang.<name>.
 func isLangNamed(T types.Type, name string) bool {
 	n := namedOf(T)
-	return n != nil && n.Obj().Pkg() != nil && n.Obj().Pkg().Path() == langPath && n.Obj().Name() == name
+	return n != nil && n.Obj().Pkg() != nil && n.Obj().Pkg().Path() == langPath && canonTypeName(n.Obj()) == name
 }
 
 func isErrorType(T types.Type) bool {
